@@ -8,7 +8,7 @@ from common import Str, sx
 
 mp.mp.dps = 40
 ID = 'C12'
-LEAN_MODULES = ['Cellml.Props.C12', 'Cellml.Tie.SingPw', 'Cellml.Tie.SingFix', 'Cellml.Tie.SingTrav', 'Cellml.Tie.Sing', 'Cellml.Tie.SingFixAdd', 'Cellml.Tie.SingDet', 'Cellml.Props.C12Gen']
+LEAN_MODULES = ['Cellml.Props.C12', 'Cellml.Tie.SingPw', 'Cellml.Tie.SingFix', 'Cellml.Tie.SingTrav', 'Cellml.Tie.Sing', 'Cellml.Tie.SingFixAdd', 'Cellml.Tie.SingDet', 'Cellml.Tie.SingDet3', 'Cellml.Props.C12Gen']
 N = {'quick': 60, 'thorough': 700}
 RULE = ('each case is a small model built through the public API (V a state with an ODE, units mV / per_mV / '
         'dimensionless / ms) holding 4-6 generated equations (quick: 60 cases ≈ 300 generated equations, thorough: 700 '
